@@ -26,8 +26,17 @@ func (dv *Router) ribUpdate(ns *table.NeighborState) {
 	dv.rib.DirtyResetNextHop(ns.Name)
 
 	for _, entry := range ns.Advert.Entries {
-		// Use the advertised cost by default
-		cost := entry.Cost + localCost
+		// Ignore malformed entries
+		if entry.Destination == nil || entry.NextHop == nil {
+			continue
+		}
+
+		// Use the advertised cost by default. A cost at or above infinity stays
+		// infinite (this also guards the addition against wrap-around).
+		cost := config.CostInfinity
+		if entry.Cost < config.CostInfinity {
+			cost = entry.Cost + localCost
+		}
 
 		// Poison reverse - try other cost if next hop is us
 		if entry.NextHop.Name.Equal(dv.config.RouterName()) {
